@@ -46,7 +46,8 @@ def discharge(ob):
         # constraints can only lose models, so a model found here is a genuine refutation.
         # definitional axioms (cnt/sel of a filter) whose symbols do not occur in the goal are a
         # conservative extension: dropping them keeps every model extendable
-        gtxt = ob.goal.sexpr()
+        # (their symbols must occur neither in the goal nor in any other hypothesis)
+        gtxt = ob.goal.sexpr() + " ".join(h.sexpr() for h in ob.hyps if h.get_id() not in ob.definitional)
         light = [h for h in ob.hyps if not (h.get_id() in ob.definitional and all(nm not in gtxt for nm in ob.definitional[h.get_id()]))]
         # the div/mod axiom is definitional as well (py_quo/py_rem are total functions)
         others = gtxt + " ".join(h.sexpr() for h in light if "dm_x" not in h.sexpr()[:200])
@@ -105,6 +106,8 @@ def _model(model, model_vars):
         try:
             if spec[0] == "int":
                 out[name] = model.eval(spec[1], model_completion=True).as_long()
+            elif spec[0] == "tuple":
+                out[name] = tuple(model.eval(t, model_completion=True).as_long() for t in spec[1])
             elif spec[0] == "bool":
                 out[name] = bool(z3.is_true(model.eval(spec[1], model_completion=True)))
             elif spec[0] == "seq":
